@@ -234,6 +234,74 @@ def scheduler_batch(ctx):
                        "peeling batches, CycleError iff cyclic, each task visited once")
 
 
+def partition_fault_batch(ctx, accepted):
+    """second fault layer: faults injected into REAL, valid partitions before the real
+    verify_distributed_partition; expectation = the Lean model of verify (`verifyViolated`)"""
+    nbase = 60 if ctx.thorough else 22
+    nsites = 4 if ctx.thorough else 2
+    bases = []
+    for t in accepted:
+        spec = G.generate(t["seed"], t["index"], t["profile"])
+        pat = G.known_patterns(spec)
+        if not any(pat.values()) and G.stats(spec)["ncomm"] >= 1:
+            bases.append(t)
+        if len(bases) >= nbase:
+            break
+    tasks = []
+    for t in bases:
+        for kind in distwork.PART_FAULTS:
+            for site in range(1 if kind == "none" else nsites):
+                tasks.append({"seed": t["seed"], "index": t["index"], "profile": t["profile"], "fault": [kind, site]})
+    try:
+        results = distwork.run_pool(distwork.c10_partfault_unit, tasks, deadline_s=900 if ctx.thorough else 300)
+    except distwork.WorkTimeout as e:
+        raise common.LeanError(f"C10 partition-fault pool timed out: {e}")
+    live = [(t, r) for t, r in zip(tasks, results) if "P" in r]
+    for t, r in zip(tasks, results):
+        if r.get("timeout"):
+            raise common.LeanError(f"C10: partition fault {t} timed out inside fakempi")
+    answers = common.driver_query_parallel([f"(dist verifymodel {r['P']} {r['pins']})" for _, r in live])
+    kinds = collections.Counter()
+    n_dis = 0
+    for (t, r), a in zip(live, answers):
+        kind = r["fault"][0]
+        kinds[kind] += 1
+        prog = {"seed": t["seed"], "index": t["index"], "profile": t["profile"], "partition_fault": r["fault"]}
+        replay = {"program": prog, "spec": r["spec"], "partition_fault": r["fault"], "description": r.get("description"),
+                  "model": a, "ranks": r["ranks"]}
+        root = r["ranks"][0]
+        raised = [x for x in r["ranks"] if x["status"] == "raised"]
+        if a == "ok accepts":
+            if raised:
+                n_dis += 1
+                ctx.violation(f"valid-partition-rejected:verify:{raised[0]['exc']}",
+                              f"verify_distributed_partition rejects a partition its model accepts ({prog}; "
+                              f"{r.get('description')}): {raised[0]['exc']} {raised[0]['text']}", replay)
+        elif a.startswith("ok raises "):
+            classes = a[len("ok raises "):].split()
+            if not raised:
+                n_dis += 1
+                ctx.violation(f"partition-fault-undiagnosed:{kind}",
+                              f"verify_distributed_partition accepts a faulty partition ({prog}; {r.get('description')}); "
+                              f"its model demands one of {classes}", replay)
+            elif root["status"] != "raised" or root["exc"] not in classes:
+                n_dis += 1
+                x = raised[0]
+                ctx.violation(f"partition-fault-misdiagnosed:{kind}:{x['exc']}",
+                              f"{prog}; {r.get('description')}: raised {x['exc']} (root: {root['status']}/{root['exc']}), "
+                              f"the model of verify allows {classes}", replay)
+        else:
+            ctx.broken.append(f"driver:verifymodel:{a[:60]}")
+    ctx.note_batch("partition-level-faults", len(live), n_dis, exhaustive=False,
+                   nontrivial=sum(v for k, v in kinds.items() if k != "none"),
+                   base_partitions=len(bases), fault_kinds=dict(sorted(kinds.items())),
+                   how="faults injected into the real partition objects of valid programs (duplicate send: same "
+                       "array / another array of equal shape+dtype / other dtype / other part; orphan sends; dropped "
+                       "receive / send; retagged send; needed_pids cycle; received name as output; removed output "
+                       "that is read later), then the real verify_distributed_partition on all ranks; expected "
+                       "classes = Lean model `verifyViolated`; the unfaulted partition must be accepted")
+
+
 def run(ctx: common.Ctx):
     ctx.assumptions += [
         "a rank left waiting in a collective for a rank that raised is recorded as 'blocked' (real MPI would "
@@ -265,6 +333,7 @@ def run(ctx: common.Ctx):
         raise common.LeanError(f"C10 work pool timed out: {e}")
     accepted = [t for t, r in zip(base_tasks, base_results)
                 if not t.get("nofault") and not r.get("timeout") and all(x["status"] == "ok" for x in r["ranks"])]
+    partition_fault_batch(ctx, accepted)
     ctx.coverage["base_programs"] = {"generated": nprog, "accepted_and_faulted": len(accepted),
                                      "reuse_family_programs": n_family}
     # phase 2: every single fault at every communication operation of the accepted programs
